@@ -13,3 +13,5 @@ pub use targets::{
     TwoAdicFriProofTargets, Witness,
 };
 pub use verifier::verify_fri_circuit;
+#[cfg(p3r_verif)]
+pub use verifier::verif_exports as verif_fri_exports;
